@@ -219,7 +219,7 @@ GRID_TILE_SIZE = {'GLOBAL_WEBMERCATOR': (256, 256), 'GLOBAL_GEODETIC': (256, 256
 ALL_TILE_SIZES = {(256, 256), (128, 128)}
 HANDLERS = ('service', 'ows', 'wms', 'wmts', 'tms', 'tiles', 'kml', 'demo')
 
-UPSTREAM_MODES = ['ok', 'ok', 'ok', 'http500', 'http404', 'http401', 'noconn', 'text', 'xmlexc', 'html', 'garbage',
+UPSTREAM_MODES = ['ok', 'ok', 'ok', 'ok', 'ok', 'ok', 'http500', 'http404', 'http401', 'noconn', 'text', 'xmlexc', 'html', 'garbage',
                   'truncated', 'empty', 'wrongsize', 'noct', 'http204']
 
 PIL_MIME = {'PNG': 'image/png', 'JPEG': 'image/jpeg', 'GIF': 'image/gif', 'TIFF': 'image/tiff'}
@@ -818,7 +818,7 @@ def _kv(*pairs):
 
 @st.composite
 def wms_base(draw):
-    ver = draw(st.sampled_from(VERSIONS + VERSIONS + ['none', 'odd']))
+    ver = draw(st.sampled_from(VERSIONS * 4 + ['none', 'odd']))
     req = draw(st.sampled_from(['map', 'map', 'map', 'fi', 'fi', 'caps', 'legend']))
     path = draw(st.sampled_from(['/service', '/service', '/ows', '/wms', '/service/', '/service/extra']))
     p = []
@@ -848,7 +848,7 @@ def wms_base(draw):
             p.append(['SCALE', draw(st.sampled_from(['1000', '0', 'x']))])
         return path, p, tag
     layers = draw(st.lists(st.sampled_from(WMS_LAYERS), min_size=1, max_size=3))
-    srs = draw(st.sampled_from(list(SRS_BBOX) + ['EPSG:4326', 'EPSG:3857', 'odd']))
+    srs = draw(st.sampled_from(list(SRS_BBOX) * 2 + ['EPSG:4326', 'EPSG:3857', 'odd']))
     if srs == 'odd':
         srs = draw(st.sampled_from(ODD_SRS))
         bbox = '0,0,10,10'
@@ -857,12 +857,12 @@ def wms_base(draw):
         if ver == '1.3.0' and srs == 'EPSG:4326' and draw(st.booleans()):
             b = bbox.split(',')
             bbox = ','.join([b[1], b[0], b[3], b[2]])
-    if draw(st.integers(0, 11)) == 0:
+    if draw(st.integers(0, 19)) == 0:
         bbox = draw(st.sampled_from(ODD_BBOX))
-    fmt = draw(st.sampled_from(FORMATS + FORMATS + ODD_FORMATS))
+    fmt = draw(st.sampled_from(FORMATS * 5 + ODD_FORMATS))
     if v100 and draw(st.booleans()):
         fmt = fmt.split(';')[0].split('/')[-1].upper()
-    size = st.one_of(st.sampled_from(SIZES), st.sampled_from(SIZES), st.sampled_from(SIZES), st.sampled_from(ODD_SIZES))
+    size = st.one_of(*([st.sampled_from(SIZES)] * 7 + [st.sampled_from(ODD_SIZES)]))
     p += _kv(('LAYERS', ','.join(layers)), ('STYLES', draw(st.sampled_from(['', '', '', 'default', 'foo', ',,', 'inspire_common:DEFAULT']))),
              ('CRS' if ver == '1.3.0' else 'SRS', srs), ('BBOX', bbox), ('WIDTH', draw(size)), ('HEIGHT', draw(size)),
              ('FORMAT', fmt))
@@ -1110,7 +1110,7 @@ def cases(draw):
     else:
         segs, params, tag = draw(path_base())
     tags.append('base:' + tag)
-    nmut = draw(st.sampled_from([0, 1, 1, 1, 2, 2, 3]))
+    nmut = draw(st.sampled_from([0, 0, 0, 1, 1, 1, 1, 2, 2, 3]))
     for _ in range(nmut):
         target = draw(st.sampled_from(['param', 'param', 'param', 'param', 'seg', 'key', 'extra']))
         if target == 'param' and params:
@@ -1269,7 +1269,7 @@ def grammar_shard(shard, nshards, seed, tier):
     st_ = core.Stats()
     n = (36000 if tier == 'quick' else 1600000) // nshards
     try:
-        core.hyp_search(cases(), check_case, st_, max_examples=n, seed=seed, max_signatures=6)
+        core.hyp_search(cases(), check_case, st_, max_examples=n, seed=seed, max_signatures=3)
     finally:
         close_harness()
     return st_
